@@ -64,3 +64,29 @@ check(
     'Documented preconditions honoured (exactly one target object for distance rewards, a beacon for the memory reward).',
     'DESIGN.md 3/C12',
 )
+check(
+    'C01',
+    'bounded exhaustive enumeration of states x actions x random outcomes through a real GridWorld with debug checks on; BFS of all reachable states of shipped configurations; single-fault mutation of space members',
+    'Every state of the E1 universe (agent on every cell incl. edges facing outward, any held item, unpaired telepods, '
+    'nested boxes) x all actions x every built-in transition function alone and the full chain x every random outcome is '
+    'stepped through GridWorld.functional_step: no exception, next state in the reference state space, finite real '
+    'reward, boolean termination (reduce_any and reduce_all), input unmodified; observations of all four observation '
+    'functions lie in the declared observation space; actions outside a restricted action space (and non-actions) '
+    'raise ValueError and change neither state nor generator; StateSpace/ObservationSpace.contains agree with a '
+    'reference predicate on every universe state and all its single-fault mutants; every reachable state of the '
+    'shipped configurations is searched breadth-first for exceptions and membership failures.',
+    'Compositions limited to the stated alphabet of built-in components; custom components out of scope.',
+    'DESIGN.md 3/C01',
+)
+check(
+    'C03',
+    'bounded exhaustive enumeration with deep-fingerprint / object-identity / differential-mutation oracles; exhaustive enumeration of cache histories (operation sequences) against cold answers',
+    'For every universe state, action, chain and outcome: the input fingerprint is unchanged, ids of all mutable '
+    'components of state and next state are disjoint, scrambling either afterwards leaves the other unchanged, every '
+    'reward/termination/observation component leaves its arguments unchanged, fast_copy equals and hashes like the '
+    'original. Every sequence (depth 3, thorough 4; depth 5 over the colliding table queries) over 13 questions that '
+    'collide on cache keys is answered identically to the cold answer, from cleared caches and after a prologue that '
+    'overflows the 10-entry shortest-path table, and cached results equal the uncached __wrapped__ computation.',
+    'Sharing of instance-stateless objects (Floor, Wall, MovingObstacle) is not counted as aliasing.',
+    'DESIGN.md 3/C03',
+)
